@@ -41,12 +41,12 @@ package opset13
 
 // The constructors registered in operators13: every lookup builds a new operator object.
 //@ family new*
-//@   tags C15,C01,C18
+//@   tags C15,C01,C18,C02
 //@   ensures result != nil && fresh(result) && isoperator(result)
 //@   ensures attribute_state_unshared: unshared(result)
 
 //@ func GetOperator
-//@   tags C15,C01,C18
+//@   tags C15,C01,C18,C02
 //@   ensures known: operatorType in operators13 ==> err == nil && result != nil && fresh(result) && isoperator(result)
 //@   ensures attribute_state_unshared: operatorType in operators13 ==> unshared(result)
 //@   ensures unknown: !(operatorType in operators13) ==> result == nil && errIs(err, ErrUnsupportedOperator)
@@ -231,7 +231,7 @@ package opset13
 //@ spec ints_positive(s []int) bool = forall k :: 0 <= k && k < len(s) ==> s[k] >= 1
 
 //@ func processShape
-//@   tags C07
+//@   tags C07,C02
 //@   requires ints_positive(currentShape) && base(newShape) != base(currentShape)
 //@   modifies newShape[*]
 //@   ensures zero_copies_input_dim: err == nil ==> (forall k :: 0 <= k && k < len(newShape) && old(newShape[k]) == 0 ==> k < len(currentShape) && newShape[k] == currentShape[k])
@@ -300,7 +300,7 @@ package opset13
 //@ spec nk(s []int, r int, i int) int = nkept(arr(s), off(s), len(s), r, i)
 
 //@ func insertOnes
-//@   tags C07
+//@   tags C07,C02
 //@   requires strictly_increasing(indices) && (forall m :: 0 <= m && m < len(indices) ==> 0 <= indices[m] && indices[m] < len(original) + len(indices))
 //@   requires pairwise_increasing(indices)
 //@   requires seqmarkb(arr(indices), off(indices), len(indices), len(original) + len(indices)) || !seqmarkb(arr(indices), off(indices), len(indices), len(original) + len(indices))
@@ -322,12 +322,12 @@ package opset13
 //@   loop 1 invariant prod(arr(newShape), off(newShape), i) == prod(arr(original), off(original), originalIdx)
 
 //@ func keepDim
-//@   tags C07
+//@   tags C07,C02
 //@   ensures result <==> !ismemb(dimsToSqueeze, 0, dim)
 //@   loop 1 invariant forall k :: 0 <= k && k < $i ==> dimsToSqueeze[k] != dim
 
 //@ func getNewShape
-//@   tags C07
+//@   tags C07,C02
 //@   ensures len(result) == nk(dimsToSqueeze, 0, len(currentShape)) && (result == nil || fresh(result))
 //@   ensures kept_in_order: forall i :: 0 <= i && i < len(currentShape) && !ismemb(dimsToSqueeze, 0, i) ==> result[nk(dimsToSqueeze, 0, i)] == currentShape[i]
 //@   ensures count_preserved: (forall i :: 0 <= i && i < len(currentShape) && ismemb(dimsToSqueeze, 0, i) ==> currentShape[i] == 1) ==> nelems(result) == nelems(currentShape)
@@ -338,14 +338,14 @@ package opset13
 //@   loop 1 invariant (forall k :: 0 <= k && k < $i && ismemb(dimsToSqueeze, 0, k) ==> currentShape[k] == 1) ==> nelems(newShape) == prod(arr(currentShape), off(currentShape), $i)
 
 //@ func getDimsToSqueezeFromShape
-//@   tags C07
+//@   tags C07,C02
 //@   ensures (result == nil || fresh(result)) && (forall k :: 0 <= k && k < len(result) ==> 0 <= result[k] && result[k] < len(shape) && shape[result[k]] == 1)
 //@   ensures forall x :: 0 <= x && x < len(shape) && shape[x] == 1 ==> (exists k :: 0 <= k && k < len(result) && result[k] == x)
 //@   loop 1 invariant (result == nil || fresh(result)) && base(result) != base(shape) && (forall k :: 0 <= k && k < len(result) ==> 0 <= result[k] && result[k] < $i && shape[result[k]] == 1)
 //@   loop 1 invariant forall x :: 0 <= x && x < $i && shape[x] == 1 ==> (exists k :: 0 <= k && k < len(result) && result[k] == x)
 
 //@ func getDimsToSqueezeFromTensor
-//@   tags C07
+//@   tags C07,C02
 //@   requires t != nil
 //@   scope validated: dtype(t) == Int64
 //@   ensures rank(t) >= 1 ==> err == nil && len(result) == blen(t) && (result == nil || fresh(result)) &&
